@@ -84,7 +84,8 @@ static int errno_of_class(const char *s)
 /* ------------------------------------------------------------------ */
 /* the operating system, as far as binding goes: interposed             */
 static int os_intercept;                 /* 0: forward to the kernel (topology discovery) */
-static hwloc_bitmap_t os_aff;            /* what sched_getaffinity reports */
+static hwloc_bitmap_t os_aff;            /* what sched_getaffinity reports for the calling thread (pid 0) */
+static hwloc_bitmap_t os_affproc;        /* ... and for an explicit tid (per-thread queries of a process-wide get); NULL = same */
 enum { OC_SETAFF, OC_GETAFF, OC_SET_MEMPOLICY, OC_MBIND, OC_GET_MEMPOLICY, OC_MIGRATE, OC_MOVE, OC_GETCPU, OC_N };
 static const char *oc_names[OC_N] = { "setaffinity", "getaffinity", "set_mempolicy", "mbind", "get_mempolicy", "migrate_pages", "move_pages", "getcpu" };
 static long os_rc[OC_N]; static int os_errno[OC_N];
@@ -122,7 +123,7 @@ int sched_getaffinity(pid_t pid, size_t sz, cpu_set_t *mask)
   if (8 * sz < os_nrcpus) { errno = EINVAL; return -1; }   /* like a kernel with that many possible CPUs */
   if (os_rc[OC_GETAFF] < 0) return (int)os_answer(OC_GETAFF);
   memset(mask, 0, sz);
-  for (i = 0; i < 8 * sz; i++) if (hwloc_bitmap_isset(os_aff, i)) ((unsigned long *)mask)[i / 64] |= 1UL << (i % 64);
+  for (i = 0; i < 8 * sz; i++) if (hwloc_bitmap_isset(pid && os_affproc ? os_affproc : os_aff, i)) ((unsigned long *)mask)[i / 64] |= 1UL << (i % 64);
   return 0;
 }
 int sched_getcpu(void)
@@ -282,6 +283,40 @@ static void raw_affinity(hwloc_bitmap_t out)
 }
 #endif
 
+
+#ifdef HWV_LIVE
+/* affinity of one thread, straight from the kernel */
+static void raw_affinity_tid(pid_t tid, hwloc_bitmap_t out)
+{
+  cpu_set_t *m = CPU_ALLOC(4096); size_t sz = CPU_ALLOC_SIZE(4096); unsigned i;
+  hwloc_bitmap_zero(out);
+  if (sched_getaffinity(tid, sz, m) == 0) for (i = 0; i < 4096; i++) if (CPU_ISSET_S(i, sz, m)) hwloc_bitmap_set(out, i);
+  CPU_FREE(m);
+}
+struct tl_job { unsigned cpu; unsigned long flags; pid_t main_tid; int bind_rc, flags_rc, load_rc, npu; char backends[128];
+                hwloc_bitmap_t before, after, main_before, main_after; };
+/* the worker binds ITSELF to one PU (the main thread keeps its wide binding), loads a fresh topology, re-reads */
+static void *tl_worker(void *arg)
+{
+  struct tl_job *j = arg; hwloc_topology_t t2; cpu_set_t *m = CPU_ALLOC(4096); size_t sz = CPU_ALLOC_SIZE(4096);
+  CPU_ZERO_S(sz, m); CPU_SET_S(j->cpu, sz, m);
+  j->bind_rc = sched_setaffinity(0, sz, m); CPU_FREE(m);
+  raw_affinity_tid(0, j->before); raw_affinity_tid(j->main_tid, j->main_before);
+  hwloc_topology_init(&t2);
+  j->flags_rc = hwloc_topology_set_flags(t2, j->flags);
+  j->load_rc = hwloc_topology_load(t2);
+  raw_affinity_tid(0, j->after); raw_affinity_tid(j->main_tid, j->main_after);
+  j->backends[0] = 0; j->npu = -1;
+  if (j->load_rc == 0) {
+    struct hwloc_infos_s *inf = hwloc_topology_get_infos(t2); unsigned k;
+    for (k = 0; k < inf->count; k++) if (!strcmp(inf->array[k].name, "Backend") && strlen(j->backends) + strlen(inf->array[k].value) + 2 < sizeof(j->backends)) { strcat(j->backends, inf->array[k].value); strcat(j->backends, ","); }
+    j->npu = hwloc_get_nbobjs_by_type(t2, HWLOC_OBJ_PU);
+  }
+  hwloc_topology_destroy(t2);
+  return NULL;
+}
+#endif
+
 int main(void)
 {
   char *line = NULL; size_t cap = 0;
@@ -353,6 +388,17 @@ int main(void)
       printf(" npu=%d\n", lr == 0 ? hwloc_get_nbobjs_by_type(t2, HWLOC_OBJ_PU) : -1);
       hwloc_topology_destroy(t2); hwloc_bitmap_free(b0); hwloc_bitmap_free(b1); continue;
     }
+    if (!strcmp(cmd, "threadload")) { /* <cpu> <flags>: load in a worker thread bound to that single PU */
+      struct tl_job j; pthread_t th;
+      memset(&j, 0, sizeof(j)); j.cpu = (unsigned)atoi(a1); j.flags = strtoul(a2, NULL, 0); j.main_tid = (pid_t)syscall(SYS_gettid);
+      j.before = hwloc_bitmap_alloc(); j.after = hwloc_bitmap_alloc(); j.main_before = hwloc_bitmap_alloc(); j.main_after = hwloc_bitmap_alloc();
+      pthread_create(&th, NULL, tl_worker, &j); pthread_join(th, NULL);
+      printf("M cpu=%u flags=%lu bind_rc=%d flags_rc=%d rc=%d backends=%s before=", j.cpu, j.flags, j.bind_rc, j.flags_rc, j.load_rc, j.backends[0] ? j.backends : "-");
+      hwv_pset(stdout, j.before); fputs(" after=", stdout); hwv_pset(stdout, j.after);
+      fputs(" main_before=", stdout); hwv_pset(stdout, j.main_before); fputs(" main_after=", stdout); hwv_pset(stdout, j.main_after);
+      printf(" npu=%d\n", j.npu);
+      hwloc_bitmap_free(j.before); hwloc_bitmap_free(j.after); hwloc_bitmap_free(j.main_before); hwloc_bitmap_free(j.main_after); continue;
+    }
     if (!strcmp(cmd, "rt")) { /* live round trip on the loaded native topology: <set> <flags> */
       hwloc_bitmap_t b = hwv_parse_set(a1), g = hwloc_bitmap_alloc(), raw = hwloc_bitmap_alloc(), last = hwloc_bitmap_alloc();
       int fl = (int)strtoul(a2, NULL, 0), rs, rg, rl, es = 0;
@@ -370,6 +416,14 @@ int main(void)
 #else
     if (!strcmp(cmd, "os")) {
       if (!strcmp(a1, "aff")) { hwloc_bitmap_t b = hwv_parse_set(a2); if (b) { hwloc_bitmap_copy(os_aff, b); hwloc_bitmap_free(b); } }
+      else if (!strcmp(a1, "affproc")) { if (os_affproc) hwloc_bitmap_free(os_affproc); os_affproc = hwv_parse_set(a2); }
+      else if (!strcmp(a1, "loadtrace")) { /* os loadtrace <flags>: every affinity call a native load issues, answered by the scripted kernel */
+        hwloc_topology_t t2; unsigned long fl = strtoul(a2, NULL, 0); int lr;
+        hwloc_topology_init(&t2); hwloc_topology_set_flags(t2, fl);
+        tr_reset(); os_intercept = 1; lr = hwloc_topology_load(t2); os_intercept = 0;
+        printf("LT flags=%lu rc=%d nbprocs=%d |%s\n", fl, lr, hwloc_fallback_nbprocessors(HWLOC_FALLBACK_NBPROCESSORS_INCLUDE_OFFLINE), trace_len ? trace : "");
+        tr_reset(); hwloc_topology_destroy(t2);
+      }
       else if (!strcmp(a1, "ret")) { int c; for (c = 0; c < OC_N; c++) if (!strcmp(a2, "all") || !strcmp(a2, oc_names[c])) { os_rc[c] = atol(a3); os_errno[c] = errno_of_class(a4); } }
       else if (!strcmp(a1, "mempol")) { hwloc_bitmap_t b = hwv_parse_set(a3); os_mempol_mode = atoi(a2); if (b) { hwloc_bitmap_copy(os_mempol_mask, b); hwloc_bitmap_free(b); } }
       else if (!strcmp(a1, "pages")) os_page_status = atoi(a2);
@@ -471,7 +525,7 @@ int main(void)
   hwloc_bitmap_free(sentinel);
   for (i = 0; i < NHOOK; i++) hwloc_bitmap_free(hk_set[i]);
 #ifndef HWV_LIVE
-  hwloc_bitmap_free(os_aff); hwloc_bitmap_free(os_mempol_mask);
+  hwloc_bitmap_free(os_aff); hwloc_bitmap_free(os_mempol_mask); if (os_affproc) hwloc_bitmap_free(os_affproc);
 #endif
   fflush(stdout);
   return 0;
